@@ -19,6 +19,7 @@ import (
 	"strconv"
 	"strings"
 	"sync"
+	"sync/atomic"
 	"time"
 
 	"github.com/echovault/sugardb/sugardb"
@@ -288,6 +289,9 @@ func cmdPersist(args []string) {
 		if err := runPersistWorkload(tr, w, o, r, work, tot, &samples); err != nil {
 			die(2, "workload %d: %v", w, err)
 		}
+		if o.mode == "rewrite" && w%2 == 0 {
+			inflightScenario(tr, w, o, work, tot)
+		}
 	}
 	if err := tr.Close(); err != nil {
 		die(2, "%v", err)
@@ -304,6 +308,84 @@ func cmdPersist(args []string) {
 	if *statsPath != "" {
 		writeJSON(*statsPath, stats)
 	}
+}
+
+// inflightScenario: a write command that has run its handler but has not been logged yet while another client's
+// REWRITEAOF arrives.  The rewrite has to wait for it (the state copy waits for commands in flight): if it copied
+// the state now, the write would be in the new preamble AND be appended to the fresh log afterwards, and a restart
+// would apply it twice.  The scenario parks an APPEND at cmd.handled, starts REWRITEAOF, gives it 250 ms, releases
+// the APPEND, lets both finish, restarts from the directory and records an "again" event (commands with replies,
+// dataset after them, dataset after the restart) - judged by TraceAgain.
+func inflightScenario(tr *Trace, w int, o persistOpts, work string, tot map[string]int) {
+	dir, err := os.MkdirTemp(work, "inflight-")
+	if err != nil {
+		die(2, "%v", err)
+	}
+	defer os.RemoveAll(dir)
+	srv, err := NewSrv(SrvOpts{DataDir: dir, AOFSync: o.sync, RestoreAOF: true})
+	if err != nil {
+		die(2, "%v", err)
+	}
+	var armed atomic.Bool
+	parked, release := make(chan struct{}), make(chan struct{})
+	sugardb.VerifSetHandler(func(name string, args ...any) {
+		if name == "cmd.handled" && armed.CompareAndSwap(true, false) {
+			close(parked)
+			<-release
+		}
+	})
+	defer sugardb.VerifSetHandler(nil)
+	db := []int{0, 1, 10}[w/2%3]
+	if db != 0 {
+		_ = srv.DB.SelectDB(db)
+	}
+	var cmds []any
+	run := func(c []Tok) Reply {
+		rep := srv.Exec(c)
+		cmds = append(cmds, map[string]any{"cmd": toksJSON(c), "r": rep.JSON(), "db": strconv.Itoa(db), "now": srv.Now()})
+		return rep
+	}
+	run([]Tok{S("SET"), S("k1"), B("a")})
+	run([]Tok{S("SET"), S("k2"), B("x")})
+	armed.Store(true)
+	done := make(chan Reply, 1)
+	app := []Tok{S("APPEND"), S("k1"), B("b")}
+	go func() { done <- srv.Exec(app) }()
+	inside := false
+	select {
+	case <-parked:
+		rw := make(chan struct{})
+		go func() { _, _ = srv.DB.ExecuteCommand("REWRITEAOF"); close(rw) }()
+		select {
+		case <-rw:
+			inside = true // the rewrite ran to completion while the APPEND was in flight
+		case <-time.After(250 * time.Millisecond):
+		}
+		close(release)
+		select {
+		case <-rw:
+		case <-time.After(StepTimeout):
+		}
+	case <-time.After(2 * time.Second):
+		close(release)
+	}
+	rep := <-done
+	cmds = append(cmds, map[string]any{"cmd": toksJSON(app), "r": rep.JSON(), "db": strconv.Itoa(db), "now": srv.Now()})
+	now := srv.Now()
+	st2 := srv.DB.VerifDump()
+	srv.DB.ShutDown()
+	ev := map[string]any{"ev": "again", "run": w, "k": -1, "cut": -1, "now": now, "base": []any{}, "cmds": cmds,
+		"st2": projState(srv.Ep, st2), "scenario": "write in flight when REWRITEAOF arrives", "rewrite_ran_inside": inside}
+	c2, _, err := restoreFrom(dir, work, now, true, false, o.sync)
+	if err != nil {
+		ev["err"] = err.Error()
+		ev["st3"] = []any{}
+	} else {
+		ev["st3"] = projState(c2.Ep, c2.DB.VerifDump())
+		c2.DB.ShutDown()
+	}
+	tr.Emit(ev)
+	tot["inflight_scenarios"]++
 }
 
 // persistStep is one step of a persistence workload.
